@@ -24,10 +24,13 @@ var (
 	// sqlHook is consulted before/after every write-path driver call: op is begin | exec | commit | committed.
 	// It may panic with crashPanic (the process dies there).
 	sqlHook func(op, query string)
-	// sqlFail may make a write-path call fail: a non-nil error is returned to database/sql instead of executing the
-	// statement; for op "commit" the transaction is rolled back and the error returned (a COMMIT that fails, e.g.
-	// SQLITE_BUSY / SQLITE_FULL).
+	// sqlFail may make a call fail: a non-nil error is returned to database/sql instead of executing the statement;
+	// for op "commit" the transaction is rolled back and the error returned (a COMMIT that fails, e.g. SQLITE_BUSY /
+	// SQLITE_FULL); for op "query" the read fails before it starts.
 	sqlFail func(op, query string) error
+	// sqlQueryHook is called before every read statement reaches SQLite (no statement of the calling connection is
+	// active at that moment): the place where "something else happens between two reads of one request".
+	sqlQueryHook func(query string)
 )
 
 type simDriver struct{ base driver.Driver }
@@ -82,6 +85,14 @@ func (c *simSQLConn) ExecContext(ctx context.Context, query string, args []drive
 }
 
 func (c *simSQLConn) QueryContext(ctx context.Context, query string, args []driver.NamedValue) (driver.Rows, error) {
+	if sqlQueryHook != nil {
+		sqlQueryHook(query)
+	}
+	if sqlFail != nil {
+		if err := sqlFail("query", query); err != nil {
+			return nil, err // a read that fails (SQLITE_BUSY while another connection holds the write lock, I/O error)
+		}
+	}
 	return c.Conn.(driver.QueryerContext).QueryContext(ctx, query, args)
 }
 
@@ -136,6 +147,14 @@ func (s *simSQLStmt) ExecContext(ctx context.Context, args []driver.NamedValue) 
 }
 
 func (s *simSQLStmt) QueryContext(ctx context.Context, args []driver.NamedValue) (driver.Rows, error) {
+	if sqlQueryHook != nil {
+		sqlQueryHook(s.q)
+	}
+	if sqlFail != nil {
+		if err := sqlFail("query", s.q); err != nil {
+			return nil, err
+		}
+	}
 	return s.Stmt.(driver.StmtQueryContext).QueryContext(ctx, args)
 }
 
